@@ -584,6 +584,98 @@ func mirDirect(seed uint64, tier string, args []string, w *bufio.Writer) {
 			fail("direct.mapping-leaked", "after Destroy /proc/self/maps still lists %v", left)
 		}
 	}
+	// rings whose positions do not fit in 31 / 32 bits: the position arithmetic is followed through the address of each claim.
+	// No page of these buffers is touched (nothing is stored), so they cost address space only; where the mapping is refused
+	// (address-space or overcommit limits) the trial is skipped.
+	hugeTried, hugeSteps := 0, 0
+	for _, size := range []int{3 << 30, 2<<30 + page, 4<<30 - page, 4<<30 + 3*page} {
+		if uint64(size) > uint64(maxInt)/4 {
+			continue
+		}
+		b, err := sbytes.NewMirroredBuffer(size, false)
+		if err != nil || b == nil {
+			continue
+		}
+		hugeTried++
+		names = append(names, b.Name())
+		first := b.Claim(1)
+		if len(first) != 1 || b.Size() != size {
+			fail("direct.huge-ring", "NewMirroredBuffer(%d): Size() %d, Claim(1) has len %d", size, b.Size(), len(first))
+			_ = b.Destroy()
+			continue
+		}
+		base := uintptr(unsafe.Pointer(&first[0]))
+		head, tail, used := 0, 0, 0
+		steps := 400
+		if tier == "thorough" {
+			steps = 20000
+		}
+		bad := false
+		for i := 0; i < steps && !bad; i++ {
+			hugeSteps++
+			big := func() int {
+				switch r.intn(5) {
+				case 0:
+					return size
+				case 1:
+					return size/2 + r.intn(page)
+				case 2:
+					return 1<<31 + r.intn(3) - 1
+				case 3:
+					return r.intn(size)
+				}
+				return r.intn(3 * page)
+			}
+			n := big()
+			c := b.Claim(n)
+			wantLen := n
+			if wantLen > size-used {
+				wantLen = size - used
+			}
+			if len(c) != wantLen {
+				fail("direct.huge-ring", "size %d head %d tail %d used %d: Claim(%d) has len %d, want %d", size, head, tail, used, n, len(c), wantLen)
+				bad = true
+				break
+			}
+			if len(c) > 0 {
+				if off := int(uintptr(unsafe.Pointer(&c[0])) - base); off != tail {
+					fail("direct.huge-ring", "size %d head %d tail %d used %d: Claim(%d) starts at ring offset %d, want %d (it overlaps queued bytes or skips free ones)", size, head, tail, used, n, off, tail)
+					bad = true
+					break
+				}
+			}
+			k := wantLen
+			if r.intn(3) == 0 && k > 0 {
+				k = r.intn(k + 1)
+			}
+			if got := b.Commit(k); got != k {
+				fail("direct.huge-ring", "size %d head %d tail %d used %d: Commit(%d) = %d", size, head, tail, used, k, got)
+				bad = true
+				break
+			}
+			used += k
+			tail = (tail + k) % size
+			m := big()
+			wantM := m
+			if wantM > used {
+				wantM = used
+			}
+			if got := b.Consume(m); got != wantM {
+				fail("direct.huge-ring", "size %d head %d tail %d used %d: Consume(%d) = %d, want %d", size, head, tail, used, m, got, wantM)
+				bad = true
+				break
+			}
+			used -= wantM
+			head = (head + wantM) % size
+			if b.UsedSpace() != used || b.FreeSpace() != size-used || b.Full() != (used == size) {
+				fail("direct.huge-ring", "size %d head %d tail %d: UsedSpace %d FreeSpace %d Full %v, want %d %d %v", size, head, tail, b.UsedSpace(), b.FreeSpace(), b.Full(), used, size-used, used == size)
+				bad = true
+			}
+		}
+		if err := b.Destroy(); err != nil {
+			fail("direct.destroy-error", "Destroy: %v", err)
+		}
+	}
 	// requests the constructor must reject leave nothing behind
 	for _, req := range []int{0, -1, -page, maxInt, -maxInt - 1} {
 		b, err := sbytes.NewMirroredBuffer(req, false)
@@ -606,5 +698,5 @@ func mirDirect(seed uint64, tier string, args []string, w *bufio.Writer) {
 	if leakedFiles != 0 {
 		fail("direct.file-leaked", "%d backing files left behind", leakedFiles)
 	}
-	fmt.Fprintf(w, "DIRECT-STAT {\"mirrored_buffers_created_and_destroyed\": %d, \"mirrored_alias_probes\": %d, \"mirrored_direct_failures\": %d}\n", created, probes, fails)
+	fmt.Fprintf(w, "DIRECT-STAT {\"mirrored_buffers_created_and_destroyed\": %d, \"mirrored_alias_probes\": %d, \"mirrored_huge_rings\": %d, \"mirrored_huge_ring_steps\": %d, \"mirrored_direct_failures\": %d}\n", created, probes, hugeTried, hugeSteps, fails)
 }
